@@ -39,12 +39,16 @@ class BasePickerModel(ABC):
         # if depth is too large
         if isinstance(depth, (int, np.integer)):
             depth = (depth, depth, depth)
+        if _extra_depth := kwargs.pop("_extra_depth", 0):
+            depth = tuple(d + _extra_depth for d in depth)
+        _depth = [int(min(s, d)) for s, d in zip(image.shape, depth)]
         task: da.Array = image.map_overlap(
             self._pick_in_chunk_wrapped,
             **params,
             **kwargs,
+            _depth=_depth,
             # dask parameters
-            depth=[min(s, d) for s, d in zip(image.shape, depth)],
+            depth=_depth,
             trim=False,
             boundary=boundary,
             dtype=object,
@@ -59,13 +63,27 @@ class BasePickerModel(ABC):
         self,
         image: NDArray[np.float32],
         block_info: dict,
+        _depth: Sequence[int],
         **kwargs,
     ) -> NDArray[np.object_]:
         pos, quats, features = self.pick_in_chunk(image, **kwargs)
-        locs: list[tuple[int, int]] = block_info[None]["array-location"]
-        for i, (start, _) in enumerate(locs):
-            pos[:, i] += start
-
+        pos = np.asarray(pos, dtype=np.float32).reshape(-1, 3)
+        # NOTE: `image` is a chunk extended by `_depth` on both sides of each axis and
+        # "array-location" of the input is the location in the array of the extended
+        # chunks. Only the molecules in the chunk itself are kept (others are picked in
+        # the neighboring chunks or are in the padded region), and shifted by the
+        # location of the chunk in the original image (`depth` is subtracted later).
+        locs: list[tuple[int, int]] = block_info[0]["array-location"]
+        index: tuple[int, ...] = block_info[0]["chunk-location"]
+        inside = np.ones(pos.shape[0], dtype=np.bool_)
+        for i, ((start, _), idx, d) in enumerate(zip(locs, index, _depth)):
+            size = image.shape[i] - 2 * d
+            inside &= (d - 0.5 <= pos[:, i]) & (pos[:, i] < d + size - 0.5)
+            pos[:, i] += start - 2 * d * idx
+        pos = pos[inside]
+        quats = np.asarray(quats)[inside]
+        if isinstance(features, dict):
+            features = {k: np.asarray(v)[inside] for k, v in features.items()}
         return np.array([[[MoleculesBox(pos, quats, features)]]], dtype=object)
 
     @abstractmethod
